@@ -34,6 +34,9 @@ CHECKS = {
  "C18": ("Actions and guards (native and ECMAScript) that delete, overwrite, replace wholesale, return null, fail or reject, over states with permanent and ordinary bindings: TLC checks PermanentKept on every recorded result and that no call crashed.",
          "8.C18", "seeded generation biased to permanent bindings; permanent names classified by the encoder",
          "TLA+ Restore/PermanentKept (Actions.tla) + TLC trace judge over recorded steps"),
+ "C19": ("Expect.tla defines SpecPass and an implementation-shaped model of the reader loop; TLC enumerates all one-step sessions (<=2 outputs x <=3 lines) and two-step sessions over a small vocabulary, checks the documented loop sound on the model, and exports them; the real Session.Run is run on them against a line-echo subprocess; TLC judges toolPassed => SpecPass.",
+         "8.C19", "quick runs a stratified sample (3,100 sessions) of the enumerated universe, thorough all one-step sessions plus 30,000 two-step ones; echo subprocess = cat; only the false-pass direction is judged",
+         "TLA+ session semantics (Expect.tla) + TLC-enumerated sessions replayed into the real tool + TLC trace judge"),
 }
 def main():
     checks = []
